@@ -612,7 +612,13 @@ impl<'a> Interp<'a> {
                     let r = v.as_ref().map(|t| self.eval(t));
                     return Ok(Flow::Return(r));
                 }
-                Stmt::Raw(_) => {}
+                Stmt::Raw(l) => {
+                    // a library call that reports an error aborts the nested evaluation of a condition call:
+                    // the statement does not say what an erroring condition means
+                    if self.cond_depth > 0 && l.contains("nohandle") {
+                        return Err(Stop::Inconclusive("erroring library call inside a condition call".to_string()));
+                    }
+                }
             }
         }
         Ok(Flow::Next)
@@ -904,11 +910,13 @@ pub struct GenOpts {
     /// known-finding shapes the main stream stays out of
     pub avoid_forin_return: bool,
     pub avoid_fullname_else: bool,
+    /// sprinkle invocations of script-implemented SDK commands (no output variable) over the program
+    pub lib_calls: bool,
 }
 
 impl Default for GenOpts {
     fn default() -> Self {
-        GenOpts { functions: false, faults: false, looping: false, halt_cmd: false, max_depth: 4, max_stmts: 40, avoid_forin_return: false, avoid_fullname_else: false }
+        GenOpts { functions: false, faults: false, looping: false, halt_cmd: false, max_depth: 4, max_stmts: 40, avoid_forin_return: false, avoid_fullname_else: false, lib_calls: false }
     }
 }
 
@@ -1124,6 +1132,50 @@ impl<'r> G<'r> {
     }
 }
 
+/// a script-implemented SDK command invoked without output variable: no emit, no variable change - invisible to
+/// the model; some of them report an error (bad handle). Their scripts use if/for/while/end themselves, so they
+/// exercise the block bookkeeping (per-line tables, call stacks, line context) from inside open blocks.
+fn lib_call(rng: &mut Rng, n_arrays: usize, scoped: bool) -> String {
+    let arr = if n_arrays > 0 && !scoped { format!("${{a{}}}", rng.usize(n_arrays)) } else { "nohandle".to_string() };
+    match rng.below(10) {
+        0 => format!("array_contains {} b", arr),
+        1 => format!("array_contains {} zz", arr),
+        2 => format!("array_join {} ,", arr),
+        3 => "array_join nohandle ,".to_string(),
+        4 => format!("array_is_empty {}", arr),
+        5 => "concat a b c".to_string(),
+        6 => "join_path a b/ /c".to_string(),
+        7 => format!("array_concat {} nohandle", arr),
+        8 => "map_contains_value nohandle v".to_string(),
+        _ => "set_from_array nohandle".to_string(),
+    }
+}
+
+fn plant_lib_calls(stmts: &mut Vec<Stmt>, rng: &mut Rng, n_arrays: usize, scoped: bool) {
+    let mut i = 0;
+    while i <= stmts.len() {
+        if rng.chance(1, 5) {
+            stmts.insert(i, Stmt::Raw(lib_call(rng, n_arrays, scoped)));
+            i += 1;
+        }
+        if i < stmts.len() {
+            match &mut stmts[i] {
+                Stmt::If { branches, els, .. } => {
+                    for (_, b) in branches.iter_mut() {
+                        plant_lib_calls(b, rng, n_arrays, scoped);
+                    }
+                    if let Some(e) = els {
+                        plant_lib_calls(e, rng, n_arrays, scoped);
+                    }
+                }
+                Stmt::While { body, .. } | Stmt::ForIn { body, .. } => plant_lib_calls(body, rng, n_arrays, scoped),
+                _ => {}
+            }
+        }
+        i += 1;
+    }
+}
+
 pub fn generate_program(rng: &mut Rng, opts: &GenOpts) -> Program {
     let n_fns = if opts.functions { rng.usize(4) } else { 0 };
     let n_arrays = rng.usize(3);
@@ -1195,6 +1247,14 @@ pub fn generate_program(rng: &mut Rng, opts: &GenOpts) -> Program {
         // nothing to do here: the renderer consults AVOID_FULLNAME_ELSE through `sp` re-rolls below
     }
     let mut p = Program { fns, arrays, main, cnd, fail_leaf, forever: opts.looping };
+    if opts.lib_calls && g.rng.chance(1, 3) {
+        let n_arrays = p.arrays.len();
+        plant_lib_calls(&mut p.main, g.rng, n_arrays, false);
+        for f in p.fns.iter_mut() {
+            let scoped = f.scoped;
+            plant_lib_calls(&mut f.body, g.rng, n_arrays, scoped);
+        }
+    }
     if opts.avoid_fullname_else {
         reroll_else_spellings(&mut p);
     }
